@@ -1,3 +1,4 @@
+import operator
 from datetime import datetime
 try:
     from functools import lru_cache
@@ -266,20 +267,62 @@ class _NotFoundValue():
 NOT_FOUND = _NotFoundValue()
 
 
+_COMPARE_OPS = {
+    '==': operator.eq, '!=': operator.ne,
+    '<': operator.lt, '<=': operator.le,
+    '>': operator.gt, '>=': operator.ge,
+}
+
+
+def _compare(op, left, right):
+    # A comparison on an absent tag, or between values that cannot be
+    # compared (a string with a number, quantities of different units),
+    # is false; it is not an error.
+    if left is NOT_FOUND:
+        return False
+    try:
+        return bool(_COMPARE_OPS[op](left, right))
+    except TypeError:
+        return False
+
+
+def _follow_ref(grid, ref):
+    # The row whose id is that reference: ids may be kept as plain strings
+    # or as Ref objects, with or without display name.
+    row = grid.get(ref.name)
+    if row is None:
+        row = grid.get('@' + ref.name)
+    if row is None:
+        for item in grid:
+            item_id = item.get('id')
+            if isinstance(item_id, Ref) and (item_id.name == ref.name):
+                return item
+        raise KeyError(ref.name)
+    return row
+
+
 def _get_path(grid, obj, paths):
     try:
         for i, path in enumerate(paths):
             obj = obj[path]
             if i != len(paths)-1 and isinstance(obj, Ref):
-                obj = grid[obj.name]  # Follow the reference
+                obj = _follow_ref(grid, obj)  # Follow the reference
         return obj  # It's a value at this time
-    except KeyError:
+    except (KeyError, TypeError, IndexError):
+        # Absent tag, dangling reference, or a step through a value that is
+        # neither a row nor a reference
         return NOT_FOUND
 
 
 def _generate_filter_in_python(node, def_filter, consts):
     if isinstance(node, FilterPath):
         def_filter.append("_get_path(_grid, _entity, %s)" % node.path)
+    elif isinstance(node, FilterBinary) and (node.op in _COMPARE_OPS):
+        def_filter.append("_compare(%r, " % node.op)
+        def_filter.extend(_generate_filter_in_python(node.left, [], consts))
+        def_filter.append(", ")
+        def_filter.extend(_generate_filter_in_python(node.right, [], consts))
+        def_filter.append(")")
     elif isinstance(node, FilterBinary):
         def_filter.append("(")
         def_filter.extend(_generate_filter_in_python(node.left, [], consts))
